@@ -78,7 +78,7 @@ pub fn run(op: &str, args: &[&str]) -> Option<String> {
                 "OK {} {} {} {} {} {}",
                 r0.map_or_else(e, |k| show_hex(&k.to_bytes())),
                 r0.map_or_else(e, |k| format!("{}", k)),
-                r0.map_or_else(e, |k| show_hex(&serialize(&k))),
+                r0.map_or_else(e, |k| crate::ops_codec::ser_checked_hex(&k)),
                 r1.map_or_else(e, |k| show_hex(&k.to_bytes())),
                 r2.map_or_else(e, |k| show_hex(&k.to_bytes())),
                 r0.map_or_else(e, |k| k.to_string())
@@ -116,7 +116,7 @@ pub fn run(op: &str, args: &[&str]) -> Option<String> {
                 "OK {} {} {} {} {} {} {}",
                 r0.map_or_else(e, |k| show_hex(&k.to_bytes())),
                 r0.map_or_else(e, |k| format!("{}", k)),
-                r0.map_or_else(e, |k| show_hex(&serialize(&k))),
+                r0.map_or_else(e, |k| crate::ops_codec::ser_checked_hex(&k)),
                 r1.map_or_else(e, |k| show_hex(&k.to_bytes())),
                 r2.map_or_else(e, |k| show_hex(&k.to_bytes())),
                 r0.map_or_else(e, |k| k.to_string()),
